@@ -446,6 +446,14 @@ def text_variant_programs():
                   "    def scale(v: SecretInteger, *, k: SecretInteger = y) -> SecretInteger:\n        r = v * k\n        return r\n"
                   "    m = xs.map(scale)\n    return [Output(m, 'o', party_P0)]\n")
     progs.append(pr)
+    # an array size given as a Nada literal instead of a plain number (twelfth seeding round): rejected today; if it is
+    # ever accepted the array has that size, as a number
+    pr = targeted.prog([targeted.inp("xs", "xs", ("arr", SI, 3)), targeted.inp("ys", "ys", ("arr", SI, 3)), {"k": "zip", "x": "z", "a": "xs", "b": "ys"}],
+                       [("o", "P0", "z"), ("p", "P0", "xs")], ["text-variant", "array-size-given-as-a-literal"])
+    text = surface.to_python(pr)
+    assert text.count("size=3") == 2, text
+    pr["text"] = text.replace("size=3", "size=Integer(3)")
+    progs.append(pr)
     return progs
 
 
@@ -519,13 +527,13 @@ def after_failed_compilation_case(ctx, preds, classify):
     ctx.cov["after_failed_compilation_case"] = True
 
 
-def generic_run(ctx, preds, classify, n_quick=300, n_thorough=6000, level="proof", second_compilation=False, after_failed=False, plain_left=False, text_variants=False, other_spellings=False, api_probe=False, rejected_valid=None):
+def generic_run(ctx, preds, classify, n_quick=300, n_thorough=6000, level="proof", second_compilation=False, after_failed=False, plain_left=False, text_variants=False, other_spellings=False, api_probe=False, rejected_valid=None, extra_families=None):
     """shared body of the program-level checks: extract, prove, validate preds on implementation MIRs, tie the model"""
     import targeted
     ok_x = vlib.step_extract(ctx)
     ok_p = vlib.step_prove(ctx) if ok_x else False
     n = n_quick if ctx.tier == "quick" else n_thorough
-    tg = targeted.all_families()
+    tg = targeted.all_families() + list(extra_families or [])
     progs, results, bad = run_programs(ctx, n, tg, preds)
     nacc = sum(1 for r in results if "ok" in r)
     for name, idxs in bad.items():
